@@ -42,6 +42,9 @@ const ALPHABETS: &[&[&str]] = &[
     &["a", "b", "c", "d"],
     &["a", "ä", "b"],
     &["x", "y", "é", "ﬁ"],
+    &["a", "b", ".", "-"],
+    &["#", "a", "%", "\\"],
+    &["a", "\u{0301}", "b"],
 ];
 
 fn gen_word(rng: &mut Rng, alpha: &[&str]) -> String {
@@ -71,8 +74,20 @@ fn gen_file(rng: &mut Rng, alpha: &[&str], pool: &[String]) -> String {
         let ws: Vec<String> = (0..n)
             .map(|_| if rng.chance(0.7) { rng.pick(pool).clone() } else { gen_word(rng, alpha) })
             .collect();
-        s.push_str(&ws.join(if rng.chance(0.1) { "  " } else { " " }));
-        s.push('\n');
+        let sep = match rng.below(12) {
+            0 => "  ",
+            1 => "\t",
+            2 => "\u{00a0}",
+            _ => " ",
+        };
+        if rng.chance(0.08) {
+            s.push(' ');
+        }
+        s.push_str(&ws.join(sep));
+        if rng.chance(0.08) {
+            s.push(' ');
+        }
+        s.push_str(if rng.chance(0.1) { "\r\n" } else { "\n" });
     }
     s
 }
